@@ -328,7 +328,7 @@ fn report_bytes(heads: &[(u8, u64)]) -> Vec<u8> {
 /// of a sync report naming `heads` for `report_ns`? The report goes through `on_actor_message` ->
 /// `on_sync_report` (decode, `has_news_for_us` of the store actor, `sync_with_peer`). Entries are
 /// only ever added to the node's document (callers pass growing sets).
-pub fn sync_report_dials(extra: &[Spec], report_ns: u8, heads: &[(u8, u64)]) -> (bool, Vec<(iroh_docs::AuthorId, u64)>) {
+pub fn sync_report_dials(extra: &[Spec], report_ns: u8, heads: &[(u8, u64)]) -> (bool, bool, Vec<(iroh_docs::AuthorId, u64)>) {
     with_pair(|pair| {
         reset(pair);
         let peer = pair.nodes[1].id;
@@ -343,9 +343,22 @@ pub fn sync_report_dials(extra: &[Spec], report_ns: u8, heads: &[(u8, u64)]) -> 
             .map(|e| (e.author(), e.timestamp()))
             .collect();
         let report = SyncReport::verif_new(ns_id(report_ns), report_bytes(heads));
-        let _ = block_on_park(node.actor.verif_on_actor_message(ToLiveActor::IncomingSyncReport { from: peer, report }));
+        let _ = block_on_park(node.actor.verif_on_actor_message(ToLiveActor::IncomingSyncReport { from: peer, report: report.clone() }));
         let dialed = !take_dials().is_empty();
-        (dialed, held)
+        // the neighbour repeats its report after the dial it caused has come to nothing (a dial
+        // that is lost fetches no entries): the verdict must be the same as the first time
+        if dialed {
+            block_on_park(node.actor.verif_on_sync_via_connect_finished(
+                ns(),
+                peer,
+                SyncReason::SyncReport,
+                Err(ConnectError::Connect { error: anyhow::anyhow!("lost") }),
+            ));
+            let _ = take_dials();
+        }
+        let _ = block_on_park(node.actor.verif_on_actor_message(ToLiveActor::IncomingSyncReport { from: peer, report }));
+        let dialed_again = !take_dials().is_empty();
+        (dialed, dialed_again, held)
     })
 }
 
